@@ -1,4 +1,7 @@
 import MesaModel.Proofs.LegacyC08
+import MesaModel.Proofs.LegacyNetState
+import MesaModel.Proofs.LegacyCalls
+import MesaModel.Proofs.LegacyIndex
 
 /-!
 # C08 — legacy grids: pos, cell contents, empties and empty_mask never disagree
@@ -124,7 +127,218 @@ theorem C08_distance_is_torus_metric (g : Grid) (hw : 0 < g.w) (hh : 0 < g.h) (h
     g.distSq (p.1 % g.w, p.2 % g.h) q = g.distSq p q :=
   ⟨distSq_torus_spec g hw hh ht p q, distSq_wrap g hw hh ht p q⟩
 
+/-! ## what each call does to the cell lists (the order inside a MultiGrid cell is observable) -/
+
+/-- **`remove_agent`**: a placed agent leaves its cell's list and gets `pos None`, nothing else changes;
+    **an agent that is not on the grid**: nothing changes — a SingleGrid returns silently, a MultiGrid raises
+    TypeError (`x, y = None`) -/
+theorem C08_remove_takes_out_or_changes_nothing (g : Grid) (hi : Inv g) (a : Aid) :
+    (∀ p, g.pos a = some p → (g.remove a).2 = .ok ∧ (g.remove a).1.pos a = none ∧
+      (g.remove a).1.content p = (g.content p).erase a ∧ (∀ q, q ≠ p → (g.remove a).1.content q = g.content q) ∧
+      ∀ b, b ≠ a → (g.remove a).1.pos b = g.pos b) ∧
+    (g.pos a = none → (g.remove a).1 = g ∧ (g.remove a).2 = if g.multi then .err .type else .ok) :=
+  c08_remove_spec g hi a
+
+/-- **the hazard outside the quantifier — `remove_agent` of an agent that lives on another space** (`pos a = some p`
+    was written by that space; this grid's cell `p` does not hold `a`): `MultiGrid.remove_agent` raises ValueError and
+    changes nothing; `SingleGrid.remove_agent` does not look — it clears cell `p`, so an occupant `b` of that cell is
+    evicted while keeping its `pos`, and the views of this grid disagree from then on (`Grid.foreignPos` and the
+    protocol line `foreign` reproduce it on the real classes; recorded as an observation, not a defect by the
+    statement: the quantifier's histories are those of one grid) -/
+theorem C08_remove_foreign_agent (g : Grid) (a : Aid) (p : Coord) (hp : g.pos a = some p) (hf : a ∉ g.content p) :
+    (g.multi = true → g.remove a = (g, .err .value)) ∧
+    (g.multi = false → (g.remove a).2 = .ok ∧ (g.remove a).1.content p = [] ∧ (g.remove a).1.pos a = none ∧
+      (∀ b, b ≠ a → (g.remove a).1.pos b = g.pos b) ∧
+      ∀ b, b ∈ g.content p → g.pos b = some p → ¬ Inv (g.remove a).1) :=
+  c08_remove_foreign g a p hp hf
+
+/-- **`place_agent`** (within the quantifier: unplaced agent) appends the agent to the cell's list -/
+theorem C08_place_appends (g : Grid) (a : Aid) (p : Coord) (hpos : g.pos a = none) (hok : (g.place a p).2 = .ok) :
+    (g.place a p).1.content p = g.content p ++ [a] ∧ (g.place a p).1.pos a = some p ∧
+    (∀ q, q ≠ p → (g.place a p).1.content q = g.content q) ∧ ∀ b, b ≠ a → (g.place a p).1.pos b = g.pos b :=
+  ⟨place_content_self g a p hpos hok, place_ok_pos g a p hpos hok, fun q hq => place_content_other g a p q hq,
+   fun b hb => place_pos_other g a b p hb⟩
+
+/-- **`move_agent`** of a placed agent, when it succeeds: the agent leaves its cell's list and is appended to
+    the (wrapped) target's — also when both are the same cell: it goes to the end —; no other cell is touched -/
+theorem C08_move_contents (g : Grid) (hw : 0 < g.w) (hh : 0 < g.h) (hi : Inv g) (a : Aid) (p cur : Coord)
+    (hcur : g.pos a = some cur) (hok : (g.move a p).2 = .ok) :
+    ∃ q, g.torusAdj p = .ok q ∧ (g.move a p).1.pos a = some q ∧
+      (g.move a p).1.content q = (g.content q).erase a ++ [a] ∧
+      (cur ≠ q → (g.move a p).1.content cur = (g.content cur).erase a) ∧
+      ∀ x, x ≠ cur → x ≠ q → (g.move a p).1.content x = g.content x :=
+  c08_move_contents g hw hh hi a p cur hcur hok
+
+/-- **`swap_pos`** of two placed agents always succeeds and exchanges them: each is appended to the other's
+    cell list and leaves its own, every other cell and agent is untouched; agents sharing a cell (or one agent
+    swapped with itself): nothing happens -/
+theorem C08_swap_exchanges (g : Grid) (hi : Inv g) (a b : Aid) (pa pb : Coord) (hpa : g.pos a = some pa) (hpb : g.pos b = some pb) :
+    (g.swap a b).2 = .ok ∧ (g.swap a b).1.pos a = some pb ∧ (g.swap a b).1.pos b = some pa ∧
+    (∀ c, c ≠ a → c ≠ b → (g.swap a b).1.pos c = g.pos c) ∧
+    (pa = pb → (g.swap a b).1 = g) ∧
+    (pa ≠ pb → (g.swap a b).1.content pb = (g.content pb).erase b ++ [a] ∧
+               (g.swap a b).1.content pa = (g.content pa).erase a ++ [b]) ∧
+    ∀ x, x ≠ pa → x ≠ pb → (g.swap a b).1.content x = g.content x :=
+  c08_swap_spec g hi a b pa pb hpa hpb
+
+/-! ## the read paths that take arbitrary integers and slices
+
+`is_cell_empty`, `grid[x]` and `get_cell_list_contents` index `self._grid[x][y]` directly: no `torus_adj`, no
+bounds check, Python's negative-index aliasing.  `grid[ix, iy]` sends ints through `torus_adj` and slices through
+Python slicing.  The model says what these reads return for *all* integers / slices. -/
+
+/-- **`is_cell_empty` for arbitrary integers**: in-grid coordinates are answered for that cell; a coordinate in
+    `-size .. -1` aliases to the cell `size` further (Python indexing from the end) — it still is a cell of the
+    grid and the answer is that cell's emptiness —; anything else raises IndexError -/
+theorem C08_isCellEmpty_any_integers (g : Grid) (hw : 0 < g.w) (hh : 0 < g.h) (p : Coord) :
+    (g.inGrid p → g.isCellEmptyRaw p = .ok (g.isCellEmpty p)) ∧
+    (∀ b, g.isCellEmptyRaw p = .ok b → ∃ c, g.inGrid c ∧ (c.1 = p.1 ∨ c.1 = p.1 + g.w) ∧ (c.2 = p.2 ∨ c.2 = p.2 + g.h) ∧
+      b = g.isCellEmpty c) ∧
+    ((∃ e, g.isCellEmptyRaw p = .error e) ↔ (p.1 < -g.w ∨ g.w ≤ p.1 ∨ p.2 < -g.h ∨ g.h ≤ p.2)) :=
+  c08_isCellEmpty_any_integers g hw hh p
+
+/-- **a slice never reaches outside the list and never repeats an index**: for every list length and every
+    `slice(start, stop, step)` (any integers or `None`; only a zero step raises) the selected indices are
+    in `0 .. n-1`, strictly increasing for a positive step and strictly decreasing for a negative one; `[:]` selects
+    everything in order, `[a:b]` with `0 ≤ a ≤ b ≤ n` selects `a .. b-1`, and with in-range bounds and a positive step
+    exactly the arithmetic progression below `stop` -/
+theorem C08_slices_select_in_range_indices (n : Int) (hn : 0 ≤ n) (s : Grid.PySlice) :
+    (Grid.sliceIndices n s = .error .value ↔ s.step = some 0) ∧
+    (∀ l, Grid.sliceIndices n s = .ok l → (∀ i ∈ l, 0 ≤ i ∧ i < n) ∧ l.Nodup ∧
+      (0 < s.step.getD 1 → l.Pairwise (· < ·)) ∧ (s.step.getD 1 < 0 → l.Pairwise (· > ·))) ∧
+    Grid.sliceIndices n ⟨none, none, none⟩ = .ok ((List.range n.toNat).map fun (k : Nat) => (k : Int)) ∧
+    (∀ a b, 0 ≤ a ∧ a ≤ b ∧ b ≤ n →
+      Grid.sliceIndices n ⟨some a, some b, none⟩ = .ok ((List.range (b - a).toNat).map fun (k : Nat) => a + (k : Int))) ∧
+    (∀ a b st i, 0 ≤ a ∧ a ≤ n ∧ 0 ≤ b ∧ b ≤ n → 0 < st →
+      ∃ l, Grid.sliceIndices n ⟨some a, some b, some st⟩ = .ok l ∧ (i ∈ l ↔ ∃ k : Nat, i = a + (k : Int) * st ∧ i < b)) :=
+  ⟨sliceIndices_error n s, fun l h => sliceIndices_spec n hn s l h, sliceIndices_full n, sliceIndices_simple n,
+   fun a b st i h hst => mem_sliceIndices_step n a b st h hst i⟩
+
+/-- **indexing shows cells of the grid**: every form of `grid[…]` that returns — `grid[x]`, `grid[(x1, y1), …]`,
+    `grid[ix, iy]` with ints and slices — returns the contents of in-grid cells only; `grid[:, :]` is the iteration
+    order, `grid[x, :]` is the column `grid[x]`; `grid[x]` aliases `-width .. -1` to the columns counted from the end
+    and raises IndexError beyond; a tuple of positions is wrapped / rejected position by position like `grid[x, y]` -/
+theorem C08_indexing_shows_cells (g : Grid) (hw : 0 < g.w) (hh : 0 < g.h) :
+    (∀ ix iy cs, g.getItem2 ix iy = .ok cs → ∀ c ∈ cs, g.inGrid c) ∧
+    g.getItem2 (.slice ⟨none, none, none⟩) (.slice ⟨none, none, none⟩) = .ok g.allCells ∧
+    (∀ x, 0 ≤ x ∧ x < g.w → g.getItem2 (.int x) (.slice ⟨none, none, none⟩) = g.getColumn x) ∧
+    (∀ x y, g.getItem2 (.int x) (.int y) = (g.torusAdj (x, y)).map fun c => [c]) ∧
+    (∀ i, (0 ≤ i ∧ i < g.w → g.getColumn i = .ok ((List.range g.h.toNat).map fun (y : Nat) => (i, (y : Int)))) ∧
+          (-g.w ≤ i ∧ i < 0 → g.getColumn i = .ok ((List.range g.h.toNat).map fun (y : Nat) => (i + g.w, (y : Int)))) ∧
+          (i < -g.w ∨ g.w ≤ i → g.getColumn i = .error .index)) ∧
+    (∀ ps cs, g.getMany ps = .ok cs → cs.length = ps.length ∧ (∀ c ∈ cs, g.inGrid c) ∧
+      ∀ pc ∈ ps.zip cs, g.torusAdj pc.1 = .ok pc.2) :=
+  ⟨getItem2_inGrid g hw hh, getItem2_full g hw, getItem2_column g hh, getItem2_int_int g, getColumn_spec g hw,
+   fun ps cs h => getMany_ok g hw hh ps cs h⟩
+
+/-! ## NetworkGrid as a space of its own (beyond the four classes the statement names: same agreement, same style)
+
+`Net` (Model/LegacyNbhd.lean) models `NetworkGrid.place_agent / remove_agent / move_agent` (after the NG1 repair)
+and the reads `is_cell_empty`, `get_cell_list_contents`, `get_all_cell_contents`, `agents`.  `NetInv` is the
+agreement of `agent.pos` with the node lists; `NHistOk` asks only that `place_agent` is called for an unplaced
+agent (on any node id — also one that does not exist: rejected); moves and removals are unrestricted. -/
+
+/-- **All NetworkGrid histories keep `pos` and the node lists in agreement**, for every graph and every history
+    of place / remove / move (targets that exist or not, placed or unplaced agents) -/
+theorem C08_network_views_agree_all_histories (n : Nat) (edges : List (Nat × Nat)) (ops : List NOp)
+    (hok : NHistOk (Net.init n edges) ops) : NetInv (nrun (Net.init n edges) ops) :=
+  nrun_inv _ ops (netInv_init n edges) hok
+
+/-- one call keeps the agreement (the induction step, for any state that satisfies it) -/
+theorem C08_network_step_keeps_agreement (t : Net) (hi : NetInv t) (op : NOp) (hok : NOpOk t op) : NetInv (nstep t op).1 :=
+  nstep_inv t op hi hok
+
+/-- `pos` is the one node whose list holds the agent — a node of the graph —, `None` exactly when no list does -/
+theorem C08_network_pos_is_the_one_node (t : Net) (hi : NetInv t) (a : Aid) :
+    (∀ v, t.pos a = some v → v < t.n ∧ a ∈ t.content v ∧ ∀ u, a ∈ t.content u → u = v) ∧
+    (t.pos a = none ↔ ∀ u, a ∉ t.content u) := by
+  refine ⟨fun v hv => ?_, ?_⟩
+  · have hm := (hi.pos_content a v).mp hv
+    refine ⟨hi.in_net v (List.ne_nil_of_mem hm), hm, fun u hu => ?_⟩
+    have := (hi.pos_content a u).mpr hu
+    rw [hv] at this; exact (Option.some.inj this).symm
+  · constructor
+    · intro h u hu; have := (hi.pos_content a u).mpr hu; rw [h] at this; cases this
+    · intro h
+      cases hp : t.pos a with
+      | none => rfl
+      | some v => exact absurd ((hi.pos_content a v).mp hp) (h v)
+
+/-- `is_cell_empty` says exactly whether a node's list is empty and raises KeyError exactly for a node that
+    does not exist; `get_all_cell_contents` and `agents` list every placed agent exactly once and nobody else,
+    in node order -/
+theorem C08_network_emptiness_and_contents_views (t : Net) (hi : NetInv t) :
+    (∀ v, v < t.n → t.isCellEmpty v = .ok (t.content v).isEmpty) ∧ (∀ v, ¬ v < t.n → t.isCellEmpty v = .error .key) ∧
+    t.getAllCellContents.Nodup ∧ (∀ a, a ∈ t.getAllCellContents ↔ t.pos a ≠ none) ∧
+    t.agentsList = t.getAllCellContents ∧ t.getAllCellContents = t.allNodes.flatMap t.content :=
+  ⟨fun v hv => by simp [Net.isCellEmpty, hv], fun v hv => by simp [Net.isCellEmpty, hv], net_all_spec t hi⟩
+
+/-- **`move_agent` lands on the target node or is rejected with nothing changed**: a placed agent moved to a
+    node of the graph ends in that node's list (at its end), has left its old list, `pos` is the target and no
+    other agent or node is touched; a node that does not exist (NG1) or an unplaced agent gives KeyError and
+    the state is untouched -/
+theorem C08_network_move_lands_or_rejects (t : Net) (hi : NetInv t) (a : Aid) (v : Nat) :
+    (∀ u, t.pos a = some u → v < t.n →
+      (t.move a v).2 = .ok ∧ (t.move a v).1.pos a = some v ∧ (∀ b, b ≠ a → (t.move a v).1.pos b = t.pos b) ∧
+      (t.move a v).1.content v = (t.content v).erase a ++ [a] ∧
+      (u ≠ v → (t.move a v).1.content u = (t.content u).erase a) ∧
+      ∀ x, x ≠ u → x ≠ v → (t.move a v).1.content x = t.content x) ∧
+    (¬ v < t.n → t.move a v = (t, .err .key)) ∧
+    (t.pos a = none → t.move a v = (t, .err .key)) :=
+  ⟨fun u hp hv => net_move_placed t hi a u v hp hv, net_move_missing t a v, net_move_unplaced t a v⟩
+
+/-- `place_agent` appends to the node's list and sets `pos` (KeyError, nothing changed, for a node that does
+    not exist); `remove_agent` takes the agent out of its node's list and clears `pos` (KeyError, nothing
+    changed, for an agent that is not in the space) -/
+theorem C08_network_place_remove (t : Net) (hi : NetInv t) (a : Aid) :
+    (∀ v, v < t.n → (t.place a v).2 = .ok ∧ (t.place a v).1.pos a = some v ∧ (t.place a v).1.content v = t.content v ++ [a] ∧
+      (∀ b, b ≠ a → (t.place a v).1.pos b = t.pos b) ∧ ∀ u, u ≠ v → (t.place a v).1.content u = t.content u) ∧
+    (∀ v, ¬ v < t.n → t.place a v = (t, .err .key)) ∧
+    (∀ v, t.pos a = some v → (t.remove a).2 = .ok ∧ (t.remove a).1.pos a = none ∧
+      (∀ b, b ≠ a → (t.remove a).1.pos b = t.pos b) ∧
+      (t.remove a).1.content v = (t.content v).erase a ∧ ∀ u, u ≠ v → (t.remove a).1.content u = t.content u) ∧
+    (t.pos a = none → t.remove a = (t, .err .key)) :=
+  ⟨fun v hv => ⟨(net_place_res t a v).1 hv, (net_place_pos t a v hv).1, (net_place_content t a v hv).1,
+      (net_place_pos t a v hv).2, (net_place_content t a v hv).2⟩,
+   fun v hv => (net_place_res t a v).2 hv, fun v hp => net_remove_placed t hi a v hp, net_remove_unplaced t a⟩
+
 /-! ## non-vacuity and witnesses -/
+
+/-- Python's aliasing on a 3x2 grid: `is_cell_empty((-1, -1))` looks at cell (2, 1); `(3, 0)` raises -/
+example : (run (init 3 2 false true 11) [.place 0 (2, 1)]).isCellEmptyRaw (-1, -1) = .ok false := by rfl
+example : (init 3 2 false true 11).isCellEmptyRaw (3, 0) = .error .index := by rfl
+example : Grid.sliceIndices 5 ⟨some 10, some (-10), some (-2)⟩ = .ok [4, 2, 0] := by rfl
+example : Grid.sliceIndices 5 ⟨some (-2), none, none⟩ = .ok [3, 4] := by rfl
+example : (init 3 2 false true 11).getItem2 (.slice ⟨none, none, some (-1)⟩) (.int 1) = .ok [(2, 1), (1, 1), (0, 1)] := by rfl
+/-- the rows are sliced only if a column was selected: `grid[1:1, ::0]` is `[]`, `grid[:, ::0]` raises -/
+example : (init 3 2 false true 11).getItem2 (.slice ⟨some 1, some 1, none⟩) (.slice ⟨none, none, some 0⟩) = .ok [] := by rfl
+example : (init 3 2 false true 11).getItem2 (.slice ⟨none, none, none⟩) (.slice ⟨none, none, some 0⟩) = .error .value := by rfl
+
+/-- swap on a MultiGrid with shared cells: 0 and 1 exchange cells, 2 stays, the arrivals are at the end -/
+example : let g := run (init 3 3 false true 18) [.place 0 (0, 0), .place 2 (0, 0), .place 1 (1, 1), .place 3 (1, 1), .swap 0 1]
+    (g.content (0, 0), g.content (1, 1)) = ([2, 1], [3, 0]) := by decide
+/-- a move onto the own cell of a MultiGrid sends the agent to the end of the list -/
+example : (run (init 2 2 true true 13) [.place 0 (0, 0), .place 1 (0, 0), .move 0 (2, 2)]).content (0, 0) = [1, 0] := by decide
+/-- `remove_agent` of an agent that is not on the grid -/
+example : (step (init 2 2 true true 13) (.remove 0)).2 = .err .type := by decide
+example : (step (init 2 2 true false 13) (.remove 0)).2 = .ok := by decide
+
+/-- the foreign-agent hazard is reachable: agent 1 sits on (1, 1); agent 0, placed on another grid at (1, 1), is "removed" here -/
+example : let g := ((run (init 3 3 false false 18) [.place 1 (1, 1)]).foreignPos 0 (1, 1)).remove 0
+    (g.2, g.1.content (1, 1), g.1.pos 1) = (.ok, [], some (1, 1)) := by decide
+
+/-- a NetworkGrid history within the quantifier with three rejected calls (missing node twice, unplaced agent) -/
+def demoNetOps : List NOp := [.place 0 1, .place 1 1, .move 0 7, .place 2 9, .move 0 2, .remove 2, .move 1 1, .remove 0]
+
+example : NHistOk (Net.init 3 [(0, 1), (1, 2)]) demoNetOps := by
+  simp [demoNetOps, NHistOk, NOpOk, nstep, Net.place, Net.move, Net.init, updA]
+
+/-- NG1 witness (the defect before its repair left the agent in no node): the move to a node that does not
+    exist is rejected and the agent stays where it was -/
+example : (nstep (nrun (Net.init 3 []) [.place 0 1]) (.move 0 7)).2 = .err .key := by decide
+example : (nrun (Net.init 3 []) [.place 0 1, .move 0 7]).pos 0 = some 1 := by decide
+example : (nrun (Net.init 3 []) [.place 0 1, .move 0 7]).content 1 = [0] := by decide
+example : (nrun (Net.init 3 []) [.place 0 1, .place 1 1, .move 0 1]).content 1 = [1, 0] := by decide
 
 /-- the hypotheses are satisfiable by a non-trivial history: `empties` read mid-history, a wrapped move, a
     rejected move, both random movers -/
